@@ -26,6 +26,7 @@ type C18Case struct {
 	// result of an earlier identical run: a user runs go generate again) or
 	// "stale" (an older result), "empty" (a placeholder, or what an interrupted
 	// write left) or "foreign" (a file of the package that no generator wrote).
+	// "dry-run-before": nothing is there, a -dry -print run of the same invocation came first.
 	// "failed-run-before": nothing is there, but an earlier run for the same output
 	// failed (the setup file had a syntax error, since repaired).
 	// The CLI contract is the same in all of them.
@@ -40,7 +41,7 @@ type C18Case struct {
 	LinkOut bool `json:"link_out,omitempty"`
 }
 
-var c18Priors = []string{"none", "same", "stale", "empty", "foreign", "failed-run-before"}
+var c18Priors = []string{"none", "same", "stale", "empty", "foreign", "failed-run-before", "dry-run-before"}
 
 var c18Forms = []string{"rel-pkgdir", "rel-modroot", "abs", "gofile", "gofile-overridden", "symlink-modroot", "gofile-with-dir"}
 var c18Outs = []string{"none", "same-dir", "subdir", "dotdot-outside"}
@@ -208,6 +209,11 @@ func execC18(env *sim.Env, c C18Case) CaseResult {
 			Step{Op: "run", Inv: &first, Bin: "plain"},
 			Step{Op: "edit", Path: setup, Data: []byte(c.World.Files[c.World.Setup])})
 		nHist = 3
+	case "dry-run-before":
+		// the user looked at the result first (-dry -print), then generates
+		first := Invocation{Cwd: iv.Cwd, Input: iv.Input, GoFile: iv.GoFile, OutArg: iv.OutArg, OutPath: iv.OutPath, Dry: true, Print: true}
+		steps = append(steps, Step{Op: "run", Inv: &first, Bin: "plain"})
+		nHist = 1
 	case "empty":
 		steps = append(steps, Step{Op: "write", Path: iv.OutPath, Data: []byte{}})
 	case "foreign":
